@@ -966,8 +966,9 @@ func TestGen(t *testing.T) {
 	genSidecarPick(c, &id, r.Sub(), vlib.Scale(40, 600))
 	genCallSite(c, &id, r.Sub(), vlib.Scale(40, 600))
 	genEnvoyF(c, &id, r.Sub(), vlib.Scale(20, 300))
+	genHostMatch(c, &id, r.Sub(), vlib.Scale(40, 600))
 	genLocality(t, c, &id, r.Sub(), vlib.Scale(12, 120))
-	genDirect(t, c, &id, r.Sub(), vlib.Scale(6, 42))
+	genDirect(t, c, &id, r.Sub(), vlib.Scale(7, 42))
 	if err := c.Flush(); err != nil {
 		t.Fatal(err)
 	}
